@@ -175,7 +175,7 @@ pub fn ref_client_request_with_keys(cred: &Cred, k: &RefKeys, addr: &Addr, chunk
             let pad_len = if first.is_empty() && o.ss22_pad == 0 { 1 } else { o.ss22_pad };
             let req = TcpRequest {
                 salt: d.bytes(c.key_len()),
-                ts: (o.now as i64 + o.ts_delta) as u64,
+                ts: (o.now as i64).wrapping_add(o.ts_delta) as u64,
                 typ: o.typ,
                 addr: addr.clone(),
                 padding: d.bytes(pad_len),
@@ -208,7 +208,7 @@ pub fn ref_client_request_with_keys(cred: &Cred, k: &RefKeys, addr: &Addr, chunk
                 cmd: if o.udp_cmd { 2 } else { 1 },
                 addr: addr.clone(),
             };
-            let ts = o.now as i64 + o.ts_delta;
+            let ts = (o.now as i64).wrapping_add(o.ts_delta);
             let mut wire = vmess::seal_request_header(&k.client_cmd_key, ts, d.arr(), d.arr(), &hdr.plain());
             let hl = wire.len();
             let body = Body::request(&hdr);
@@ -413,7 +413,7 @@ pub fn ref_server_response(cred: &Cred, session: &SessionInfo, chunks: &[Vec<u8>
             let first = if cs.is_empty() { vec![] } else { cs.remove(0) };
             let resp = TcpResponse {
                 salt: d.bytes(c.key_len()),
-                ts: (o.now as i64 + o.ts_delta) as u64,
+                ts: (o.now as i64).wrapping_add(o.ts_delta) as u64,
                 typ: o.typ,
                 request_salt: o.echo.clone().unwrap_or_else(|| request_salt.clone()),
                 first,
